@@ -312,6 +312,24 @@ def r09_5_contract_names(ctx):
         name_in_sig = sig.split("(")[0] if sig else None
         name_in_contract = rec.attrs.get("name") if isinstance(rec, Sym) else None
         ctx.check(name_in_sig is not None and name_in_sig == name_in_contract, "R09.5", f"add_method_handler[overriding_name={override!r}]", f"the program dispatches on `{name_in_sig}` but the contract lists the method as `{name_in_contract}`", f.where, fact={"signature": sig, "contract_name": name_in_contract})
+    # the name in the signature is the routine's registered name (an overriding name given at construction included), not the Python function's
+    ars_ = ctx.model.find_class("ABIReturnSubroutine", "pyteal.ast.subroutine")
+    msf, nmf = ars_.methods["method_signature"], ars_.methods["name"]
+    sub_def = Sym("subroutine-definition", attrs={"abi_args": {"a": "uint64", "b": "string"}, "implementation": Sym("python-function", attrs={"__name__": "python_name"})}, methods={"name": lambda: "registered_name"})
+    handler = Sym("abi-subroutine", attrs={"subroutine": sub_def}, methods={"is_abi_routable": lambda: True, "type_of": lambda: "void"})
+    handler.methods["name"] = lambda: run_function(nmf.node, {"self": handler}, lambda e, me: (_ for _ in ()).throw(Unknown()), nmf.fq, permissive=True)[0]
+
+    def ms_oracle(e, me):
+        if u(e) == "abi":
+            return Sym("abi", attrs={"TypeSpec": Rec("name", "abi.TypeSpec"), "TransactionTypeSpecs": [], "ReferenceTypeSpecs": []}, methods={"contains_type_spec": lambda *a: False})
+        raise Unknown()
+
+    for given, want_name in ((None, "registered_name"), ("explicit", "explicit")):
+        try:
+            sig_, _ = run_function(msf.node, {"self": handler, "overriding_name": given}, ms_oracle, msf.fq, permissive=True, setup=lambda me: setattr(me, "isinstance_hook", lambda v, c: False if isinstance(v, str) else None))
+        except Raised as r:
+            sig_ = f"raises {r.exc_text[:40]}"
+        ctx.check(sig_ == f"{want_name}(uint64,string)void", "R09.5", f"method_signature[overriding_name={given!r}]", f"the signature is `{sig_}`; the routine is registered (and listed in the contract) as `{want_name}`, so its selector must be that of `{want_name}(uint64,string)void`", msf.where, fact={"signature": sig_})
     # method_signature and method_spec take argument and return types from the same sources
     ars = ctx.model.find_class("ABIReturnSubroutine", "pyteal.ast.subroutine")
     ms, sp = ars.methods["method_signature"], ars.methods["method_spec"]
@@ -343,7 +361,7 @@ def r09_5_contract_names(ctx):
         ctx.check(not retained, "R09.5", "method_spec:fresh-object", f"add_method_handler writes {mutated} on the object it gets from method_spec(); that object must not be shared between registrations, but method_spec {'; '.join(retained[:2])}", sp.where, fact={"mutated_by_router": mutated})
     else:
         ctx.ok("R09.5", "method_spec:fresh-object", {"mutated_by_router": []}, sp.where)
-    ctx.require_min("R09.5", 6)
+    ctx.require_min("R09.5", 8)
 
 
 def run(ctx):
@@ -353,6 +371,10 @@ def run(ctx):
     from rules import c08 as _c08
 
     _c08.r08_5_registration(ctx)  # one method per selector: duplicate signatures and selector collisions are refused (shared with C08)
+    from rules import c02 as _c02, c04 as _c04, c19 as _c19
+
+    _c02.r02_3_spill(ctx)  # a routed method that calls itself: the spill sequence counts the stack arguments, not the Python parameters (shared with C02)
+    _c04.r04_4_immediates(ctx)  # de-tupling offsets past 255 use the stack forms (shared with C04)
     from rules import c12 as _c12, c06 as _c06
 
     _c06.r06_1_descriptors(ctx)  # static lengths (reference types: one byte) position the members of the 15th-argument tuple (shared with C06)
